@@ -204,7 +204,7 @@ def run_fstr_shard(args):
 def run_shard(args):
     if args[0] == 'fstr':
         return run_fstr_shard(args)
-    if args[0] in ('lex', 'hdr', 'layout'):
+    if args[0] in ('lex', 'hdr', 'layout', 'dense'):
         return run_lex_shard(args)
     paths, d, tier, start = args
     r = C.Result()
@@ -255,6 +255,7 @@ def run(tier, seed):
     for g in K.group_shards(shards, 400 if tier == 'thorough' else 96):
         jobs.append((g, d, tier, 'file'))
     jobs.append(('fstr', 2 if tier == 'quick' else 3))
+    jobs += [('dense', 0 if tier == 'quick' else 1, k) for k in range(16)]
     nl, nh = c01.LEX_N[tier], c01.HDR_N[tier] - 1
     jobs += [('lex', nl, sh) for sh in X.prefix_shards(c01.LEX, nl, 1 if tier == 'quick' else 2)]
     jobs += [('hdr', nh, sh) for sh in X.prefix_shards(c01.HDR, nh, 1 if tier == 'quick' else 2)]
